@@ -594,6 +594,23 @@ func (g *genState) genMethod(idx int) Method {
 			m.Features = append(m.Features, "duplicate-notation")
 		}
 	}
+	if g.opt.WellFormed {
+		// an error-capable source needs an error result (anything else is rightly rejected)
+		risky := false
+		for _, f := range fields {
+			if f.Pair.SrcKind == "errgetter" {
+				risky = true
+			}
+		}
+		for _, n := range m.Notations {
+			if strings.Contains(n, "Risky()") || strings.Contains(n, "Score()") || strings.Contains(n, "Atoi") || strings.Contains(n, "localConvErr") {
+				risky = true
+			}
+		}
+		if risky {
+			m.RetErr = true
+		}
+	}
 	if g.rng.Float64() < g.opt.Hooks {
 		m.Notations = append(m.Notations, g.hook(&m, "preprocess"))
 	}
